@@ -709,6 +709,8 @@ def o_C17(x, ctx):
         ctx.count('skipped_trace_diverged')
         return out
     for (k, fa), (_, fb) in zip(a, b):
+        if fa is None and fb is None:
+            continue        # slice without in-behaviour flag observation
         if fa not in (fb or '').split('/'):
             out.append(('flag-in-behaviour', f'inside {":".join(str(v) for v in k)} the flags read {fa}, the configuration defined by the switch policy gives {fb}'))
             break
